@@ -6,6 +6,7 @@ import (
 	"errors"
 	"fmt"
 	"io"
+	"net"
 	"sync/atomic"
 	"time"
 
@@ -197,6 +198,10 @@ func commitsIn(l *hist.Layout, evIdx []int, n int) int {
 type AttemptSpec struct {
 	Fault  Fault
 	Pacing int
+	// Seek > 0: before this attempt the caller repositions the streamer with SetBinlogPosition to the end
+	// label of its (Seek-1)-th accepted transaction (Seek = 1: the start position), clamped to what has been
+	// accepted; the attempt must ask for exactly that position and deliver the history from there
+	Seek int `json:",omitempty"`
 }
 
 // FaultCase is a C04 scenario: failing attempts followed by a clean one.
@@ -204,13 +209,22 @@ type FaultCase struct {
 	H        *hist.History
 	StartIdx int
 	Attempts []AttemptSpec
+	// FinalSeek: AttemptSpec.Seek of the final, fault-free attempt
+	FinalSeek int `json:",omitempty"`
 }
 
 var errInjected = errors.New("injected handler failure")
 
 // handlerErrors are the values an injected handler failure may carry: a handler can fail with
 // anything, including errors that look like "clean end" sentinels elsewhere.
-var handlerErrors = []error{errInjected, io.EOF, context.Canceled, io.ErrUnexpectedEOF, context.DeadlineExceeded, errors.New("")}
+var handlerErrors = []error{errInjected, io.EOF, context.Canceled, io.ErrUnexpectedEOF, context.DeadlineExceeded, errors.New(""), tempErr{}, &net.OpError{Op: "write", Net: "tcp", Err: tempErr{}}}
+
+// tempErr is a handler failure that calls itself temporary and a timeout, as a sink's net.Error does.
+type tempErr struct{}
+
+func (tempErr) Error() string   { return "sink: i/o timeout" }
+func (tempErr) Temporary() bool { return true }
+func (tempErr) Timeout() bool   { return true }
 
 func handlerErr(f Fault) error {
 	if f.Sub < 0 {
@@ -252,7 +266,7 @@ func drawFault(rt *rapid.T, kinds []string, nsteps, ntx int) Fault {
 		// the context is cancelled at the At-th log call made on the Stream goroutine: a cancellation
 		// between any two steps of the parser (e.g. after it took a commit event, before the hand-over)
 		f.At = rapid.IntRange(1, 3*nsteps+4).Draw(rt, "log_call_at")
-	case f.Kind == "err_handshake" || f.Kind == "err_query":
+	case f.Kind == "err_handshake" || f.Kind == "err_query" || f.Kind == "dump_write_fails":
 	default:
 		f.At = rapid.IntRange(1, 2).Draw(rt, "mapper_at")
 		f.Sub = rapid.SampledFrom([]int{-1, 1, -100, 3}).Draw(rt, "col_delta")
@@ -279,6 +293,8 @@ func faultAttempt(ss *session, l *hist.Layout, spec AttemptSpec) (attempt, func(
 		at.plan = &fakemaster.ConnPlan{HandshakeErr: fakemaster.ErrPacket(1040, "08004", "Too many connections")}
 	case f.Kind == "err_query":
 		at.plan = &fakemaster.ConnPlan{QueryErr: fakemaster.ErrPacket(1227, "42000", "Access denied; you need (at least one of) the SUPER privilege(s) for this operation")}
+	case f.Kind == "dump_write_fails":
+		cleanup = failDumpWrite()
 	case isMasterFault(f.Kind):
 		at.mutate = applyFault(l, f)
 	case f.Kind == "cancel_out":
@@ -363,7 +379,7 @@ func faultAttempt(ss *session, l *hist.Layout, spec AttemptSpec) (attempt, func(
 		}
 	case f.Kind == "mapper_err":
 		ss.mp.mu.Lock()
-		ss.mp.failAt, ss.mp.failErr = ss.mp.ncalls+f.At, fmt.Errorf("injected mapper failure")
+		ss.mp.failAt, ss.mp.failErr, ss.mp.failFull = ss.mp.ncalls+f.At, fmt.Errorf("injected mapper failure"), f.Sub > 0
 		ss.mp.mu.Unlock()
 		cleanup = func() { ss.mp.mu.Lock(); ss.mp.failAt = 0; ss.mp.mu.Unlock() }
 	case f.Kind == "mapper_cols":
